@@ -101,6 +101,8 @@ class SessionCheck(Check):
             self.note("sessions_watched_by_a_residual_graph_updater", stats.get("foreign_updater", 0))
             self.note("ev_rejected_observer_construction", stats.get("rejected_construction", 0))
             self.note("ev_deepcopy_checkpoint", stats.get("deepcopy", 0))
+            self.note("ev_direct_dispatch_in_an_environment_session", stats.get("env_direct_dispatch", 0))
+            self.note("ev_dispatcher_reset_in_an_environment_session", stats.get("env_dispatcher_reset", 0))
             if all(job[0][1] == 0 for job in case["spec"] if job):
                 self.note("inst_every_job_starts_with_zero_duration")
             self.note("ev_obs", stats["obs"])
